@@ -157,7 +157,8 @@ func (s *OnDiskAggTrigger) Fire(keyPath string, records []trigger.Record) {
 			return
 		}
 
-		cs = io.ColumnSeriesUnion(cs, &c.cs)
+		// the records just written replace cached bars of the same epoch (right side wins)
+		cs = io.ColumnSeriesUnion(&c.cs, cs)
 
 		s.write(tbk, cs, tail, head, elements)
 
@@ -205,8 +206,12 @@ type cachedAgg struct {
 	tail, head time.Time
 }
 
+// Valid reports whether the cached window [c.tail, c.head] covers every window that the new
+// records [head, tail] touch: records before the cached window need the base bars of their
+// own window, which the cache does not hold.
 func (c *cachedAgg) Valid(tail, head time.Time) bool {
-	return tail.Unix() >= c.tail.Unix() && head.Unix() <= c.head.Unix()
+	return head.Unix() >= c.tail.Unix() && tail.Unix() >= c.tail.Unix() &&
+		head.Unix() <= c.head.Unix() && tail.Unix() <= c.head.Unix()
 }
 
 func (s *OnDiskAggTrigger) writeAggregates(
